@@ -158,7 +158,15 @@ def safe_callable_names(root: ast.Module) -> Collection[str]:
     defined_names = {node.id for node in core.walk(root, ast.Name(ctx=ast.Store))}
     function_defs = list(core.walk(root, (ast.FunctionDef, ast.AsyncFunctionDef)))
     all_function_defs = list(function_defs)
-    safe_callables = set(constants.SAFE_CALLABLES)
+    # A module that binds the name of a builtin itself means its own object by that name
+    rebound_names = defined_names | {node.name for node in function_defs}
+    rebound_names |= {node.name for node in core.walk(root, ast.ClassDef)}
+    rebound_names |= {
+        alias.asname or alias.name.split(".")[0]
+        for node in core.walk(root, (ast.Import, ast.ImportFrom))
+        for alias in node.names
+    }
+    safe_callables = set(constants.SAFE_CALLABLES) - rebound_names
     safe_callable_nodes = set()
     changes = True
     while changes:
